@@ -192,6 +192,35 @@ def addCpiLoop (pda : List Bytes → Bytes → Option Bytes) (ixData prog : Byte
     | .err e => .err e
     | .panic => .panic
 
+/-- `add_to_instruction`'s loop together with what it leaves in `instruction.accounts` when it
+    returns: after an error these are the metas appended by the iterations that completed (the
+    meta is pushed after its account data was fetched). -/
+def addIxLoopT (pda : List Bytes → Bytes → Option Bytes) (fetch : Bytes → Res (Option Bytes))
+    (ixData prog : Bytes) : List Meta → List Acct → List AccountMeta → List AccountMeta × Res Unit
+  | [], _, metas => (metas, .ok ())
+  | cfg :: rest, known, metas =>
+    match resolveOne pda cfg ixData prog known metas with
+    | .ok m =>
+      match fetch m.key with
+      | .ok data => addIxLoopT pda fetch ixData prog rest (known ++ [⟨m.key, data⟩]) (metas ++ [m])
+      | .err _ => (metas, .err eAccountFetchFailed)
+      | .panic => (metas, .panic)
+    | .err e => (metas, .err e)
+    | .panic => (metas, .panic)
+
+/-- the same for `add_to_cpi_instruction`: metas and infos are pushed together, after the pool lookup -/
+def addCpiLoopT (pda : List Bytes → Bytes → Option Bytes) (ixData prog : Bytes) (pool : List Info) :
+    List Meta → List Info → List AccountMeta → (List AccountMeta × List Info) × Res Unit
+  | [], infos, metas => ((metas, infos), .ok ())
+  | cfg :: rest, infos, metas =>
+    match resolveOne pda cfg ixData prog (infos.map infoAcct) metas with
+    | .ok m =>
+      match pool.find? (fun x => x.key = m.key) with
+      | some info => addCpiLoopT pda ixData prog pool rest (infos ++ [info]) (metas ++ [m])
+      | none => ((metas, infos), .err eIncorrectAccount)
+    | .err e => ((metas, infos), .err e)
+    | .panic => ((metas, infos), .panic)
+
 /-- `ExtraAccountMetaList::add_to_cpi_instruction::<T>` -/
 def addToCpi (pda : List Bytes → Bytes → Option Bytes) (ix : Instruction) (cpiInfos : List Info)
     (stored disc : Bytes) (pool : List Info) : Res (Instruction × List Info) :=
@@ -203,6 +232,26 @@ def addToCpi (pda : List Bytes → Bytes → Option Bytes) (ix : Instruction) (c
     | .panic => .panic
   | .err e => .err e
   | .panic => .panic
+
+/-- `add_to_instruction` with what it leaves in `instruction.accounts` whatever it returns -/
+def addToInstructionT (pda : List Bytes → Bytes → Option Bytes) (fetch : Bytes → Res (Option Bytes))
+    (ix : Instruction) (stored disc : Bytes) : List AccountMeta × Res Unit :=
+  match readList stored disc with
+  | .ok cfgs =>
+    match fetchAll fetch ix.accounts with
+    | .ok known => addIxLoopT pda fetch ix.data ix.prog cfgs known ix.accounts
+    | .err e => (ix.accounts, .err e)
+    | .panic => (ix.accounts, .panic)
+  | .err e => (ix.accounts, .err e)
+  | .panic => (ix.accounts, .panic)
+
+/-- `add_to_cpi_instruction` with the metas and infos it leaves whatever it returns -/
+def addToCpiT (pda : List Bytes → Bytes → Option Bytes) (ix : Instruction) (cpiInfos : List Info)
+    (stored disc : Bytes) (pool : List Info) : (List AccountMeta × List Info) × Res Unit :=
+  match readList stored disc with
+  | .ok cfgs => addCpiLoopT pda ix.data ix.prog pool cfgs cpiInfos ix.accounts
+  | .err e => ((ix.accounts, cpiInfos), .err e)
+  | .panic => ((ix.accounts, cpiInfos), .panic)
 
 /-- the loop of `check_account_infos` : config `i` must resolve to the meta of the provided
     account at `initial + i` -/
